@@ -134,7 +134,7 @@ def units(tier):
 
 # configuration-dependent results recorded as known findings: (config regex, function regex) -> finding ids
 KNOWN = [
-    (r'cxx98|cxx03|cxx_unknown', r'^(round|roundEven|vcommon\d)_', ['KF-C15-cxx98-round']),
+    (r'cxx98|cxx03|cxx_unknown', r'^(round|roundEven|vcommon\d|iround|uround)_', ['KF-C15-cxx98-round']),
     (r'cxx98|cxx03|cxx_unknown', r'^(pk_unorm|pk_f11)$', ['KF-C15-cxx98-round-pack']),
     (r'cxx98|cxx03|cxx_unknown', r'^(log2|exp2|asinh|acosh|atanh|fma3)_', ['KF-C15-cxx98-libm-fallbacks']),
 ]
